@@ -737,14 +737,15 @@ PROPS['C15'] = dict(
 )
 
 PROPS['C16'] = dict(
-    modules=['contracts.kmeans_py'],
-    contracts=['clustering.kmeans._distance_with_params'],
+    modules=['contracts.kmeans_py', 'contracts.kmeans_sib_py'],
+    contracts=['clustering.kmeans._distance_with_params', 'clustering.kmeans._distance_ndim_with_params',
+               'clustering.kmeans._distance_c_with_params'],
     lemmas=[],
     bounded=dict({'c16-native-sweep': _native_sweep('kmeans_native.py',
         'random data sets (3..8 series, ndim 1..2, duplicates) x k x seeds x initialisation (k-means++, random, sample size) x drop_stddev x window / penalty x use_c x serial / a few parallel fits: exactly k index sets 0..k-1 partitioning all series, k means, every series with a nearest mean (recomputed with the pure-Python distance), iterations <= max_it + 1', 150, 1500)}),
     level='exploration',
-    level_text='The assignment step clustering.kmeans._distance_with_params (pure-Python, 1-D) is proved to return the first mean at minimal dtw.distance (callee contract C01 as an opaque value). Everything else of KMeans.fit is a bounded stand-in: swept on small data sets.',
-    level_note='Randomised seeding, multiprocessing and DBA (C12) are outside the verifier.',
+    level_text='The assignment steps clustering.kmeans._distance_with_params (pure-Python, 1-D), _distance_ndim_with_params (multivariate Python kernel) and _distance_c_with_params (univariate C kernel) are proved to return the first mean at the least kernel value (each kernel as an opaque function of the two series: C01 / C11 / C02). Everything else of KMeans.fit is a bounded stand-in: swept on small data sets.',
+    level_note='Randomised seeding, multiprocessing and DBA (C12) are outside the verifier. _distance_ndim_c_with_params has the same text as its proved siblings and is not separately proved.',
     trusted_base=[],
     assumptions=['bounded: small random inputs, stated in the sweep'],
     not_decided=['contract for the assignment step / final re-assignment'],
